@@ -57,12 +57,12 @@ Section Crash.
   Variable dec_env : bytes -> option envelope.
   Variable enc_meta : meta -> bytes.
   Variable dec_meta : bytes -> option meta.
-  Variable chunk : nat.
+  Variable chunk : wcfg.
   Hypothesis dec_enc_env : forall e, dec_env (enc_env e) = Some e.
   Hypothesis dec_enc_meta : forall m, dec_meta (enc_meta m) = Some m.
   Hypothesis enc_env_nonempty : forall e, enc_env e <> [].
   Hypothesis enc_meta_nonempty : forall m, enc_meta m <> [].
-  Hypothesis chunk_pos : chunk <> O.
+  Hypothesis chunk_pos : wcfg_ok chunk.
 
   Notation dprog_of := (disk_prog enc_env dec_env enc_meta dec_meta chunk).
   Notation drep := (disk_rep enc_env enc_meta).
@@ -660,6 +660,133 @@ Section Crash.
         * intros q Hq1 Hq2. apply A. intros [E|[]]; congruence.
         * apply A. intros [E|[]]; congruence.
       + destruct (HB _ Hb) as [H1 H2]. split; [exact H1|]. split; [exact H2|exact Logic.I].
+  Qed.
+
+  (* ---- short writes and write errors: whatever the asynchronous writes do
+     (store fewer bytes than asked, any number of times; report an error at any
+     point), the file that gets published holds the complete data *)
+  Section Faulty.
+    Variable cfg : wcfg.
+    Hypothesis cfg_chunk : w_chunk cfg <> O.
+    Variable I' : list (op * res) -> op -> fs -> Prop.
+    Variable B' : list (op * res) -> fs -> Prop.
+    Notation okrun' := (okrun fs dcmd dans dexec I' B').
+
+    Lemma okrun_write_loop_faulty d o p t k data s :
+      p <> PTmp t ->
+      (forall s', agree_but [PTmp t] s s' -> I' d o s') ->
+      (forall s', agree_but [PTmp t] s s' -> B' (d ++ [(o, REmptyWrite)]) s') ->
+      (forall s2, agree_but [PTmp t; p] s s2 -> fget s2 p = Some data -> fget s2 (PTmp t) = None ->
+                  I' d o s2 /\ okrun' d o s2 k) ->
+      forall fuel rest sofar off s1,
+        agree_but [PTmp t] s s1 -> fget s1 (PTmp t) = Some sofar -> off = N.of_nat (length sofar) ->
+        sofar ++ rest = data -> rest <> [] -> (length rest <= fuel)%nat ->
+        okrun' d o s1 (write_loop cfg fuel t off rest p k).
+    Proof.
+      intros Hp HI HE HK. induction fuel as [|f IH]; intros rest sofar off s1 Hag Hget Hoff Hdata Hne Hlen.
+      { destruct rest; [congruence|cbn [length] in Hlen; lia]. }
+      destruct rest as [|x r]; [congruence|].
+      destruct (w_chunk cfg) as [|c] eqn:Ec; [congruence|].
+      cbn [write_loop]. rewrite Ec, firstn_cons. unfold written.
+      destruct (w_fault cfg t off (length (x :: firstn c r))) as [w0|] eqn:Ew.
+      2:{ apply ok_do; [apply HI; exact Hag|]. intros s' a E. cbn [dexec] in E. inversion E; subst s' a.
+          apply ok_ret. apply HE. exact Hag. }
+      set (n := length (x :: firstn c r)) in *.
+      set (w := if (Nat.ltb 0 w0 && Nat.ltb w0 n)%bool then w0 else n).
+      assert (Hn : (1 <= n <= length (x :: r))%nat).
+      { unfold n. cbn [length]. rewrite firstn_length. lia. }
+      assert (Hw : (1 <= w <= n)%nat).
+      { unfold w. destruct (Nat.ltb 0 w0 && Nat.ltb w0 n)%bool eqn:E; [|lia].
+        apply andb_prop in E as [E1 E2]. apply Nat.ltb_lt in E1. apply Nat.ltb_lt in E2. lia. }
+      destruct w as [|w']; [lia|]. rewrite firstn_cons.
+      apply ok_do; [apply HI; exact Hag|].
+      intros s' a E. cbn [dexec] in E. rewrite Hget in E. inversion E; subst s' a; clear E.
+      subst off. rewrite pwrite_end.
+      set (piece := x :: firstn w' r) in *.
+      set (s2 := aset path_eqb s1 (PTmp t) (sofar ++ piece)).
+      assert (Hag2 : agree_but [PTmp t] s s2).
+      { eapply agree_but_trans; [exact Hag|]. apply (agree_but_fset [PTmp t] s1). left; reflexivity. }
+      assert (Hget2 : fget s2 (PTmp t) = Some (sofar ++ piece)) by apply fget_fset_same.
+      assert (Hsplit : piece ++ skipn (S w') (x :: r) = x :: r).
+      { unfold piece. rewrite <- firstn_cons. apply firstn_skipn. }
+      assert (Hpl : length piece = S w').
+      { unfold piece. rewrite <- firstn_cons, firstn_length. lia. }
+      destruct (skipn (S w') (x :: r)) as [|y r'] eqn:Er.
+      - apply ok_do; [apply HI; exact Hag2|].
+        intros s' a E. cbn [dexec] in E. rewrite Hget2 in E. inversion E; subst s' a; clear E.
+        rewrite app_nil_r in Hsplit.
+        match goal with |- okrun _ _ _ _ _ _ _ _ ?st _ => assert (HK' : I' d o st /\ okrun' d o st k) end.
+        2:{ destruct HK' as [HI' HK']. apply ok_do; [exact HI'|].
+            intros s' a E. cbn [dexec] in E. inversion E; subst s' a. exact HK'. }
+        apply HK.
+        + intros q Hq. change (fget (fset (fdel s2 (PTmp t)) p (sofar ++ piece)) q = fget s q).
+          rewrite fget_fset_other by (intros ->; apply Hq; right; left; reflexivity).
+          rewrite fget_fdel_other by (intros <-; apply Hq; left; reflexivity).
+          apply Hag2. intros [<-|[]]. apply Hq. left; reflexivity.
+        + change (fget (fset (fdel s2 (PTmp t)) p (sofar ++ piece)) p = Some data).
+          rewrite fget_fset_same, Hsplit. congruence.
+        + change (fget (fset (fdel s2 (PTmp t)) p (sofar ++ piece)) (PTmp t) = None).
+          rewrite fget_fset_other by exact Hp. apply fget_fdel_same.
+      - assert (Hl : (length (y :: r') <= f)%nat).
+        { rewrite <- Er, skipn_length. cbn [length] in *. lia. }
+        destruct f as [|f']; [cbn [length] in Hl; lia|].
+        apply (IH (y :: r') (sofar ++ piece)); try assumption.
+        + rewrite app_length, Hpl. lia.
+        + rewrite <- app_assoc, Hsplit. exact Hdata.
+        + discriminate.
+    Qed.
+  End Faulty.
+
+  Lemma dump_complete_despite_short_writes (cfg : wcfg) data p t r s n :
+    w_chunk cfg <> O -> data <> [] -> p <> PTmp t -> fget s (PTmp t) = None ->
+    let st := asteps dexec prog_next n s (dump cfg data p t (Ret r)) in
+    (forall q, q <> PTmp t -> q <> p -> fget (fst st) q = fget s q) /\
+    (fget (fst st) p = fget s p \/ (fget (fst st) p = Some data /\ fget (fst st) (PTmp t) = None)) /\
+    match snd st with
+    | Ret x => (x = r /\ fget (fst st) p = Some data /\ fget (fst st) (PTmp t) = None) \/
+               (x = REmptyWrite /\ fget (fst st) p = fget s p)
+    | Do _ _ => True
+    end.
+  Proof.
+    intros Hc Hd Hp Hf st.
+    set (Done := fun (s' : fs) => agree_but [PTmp t; p] s s' /\ fget s' p = Some data /\ fget s' (PTmp t) = None).
+    set (B' := fun (dd : list (op * res)) (s' : fs) =>
+                 (dd = [(OGet 0, r)] /\ Done s') \/ (dd = [(OGet 0, REmptyWrite)] /\ agree_but [PTmp t] s s')).
+    set (I' := fun (_ : list (op * res)) (_ : op) (s' : fs) => agree_but [PTmp t] s s' \/ Done s').
+    assert (Hok : okrun fs dcmd dans dexec I' B' [] (OGet 0) s (dump cfg data p t (Ret r))).
+    { unfold dump. apply ok_do; [left; apply agree_but_refl|].
+      intros s' a E. cbn [dexec] in E. rewrite amem_fget, Hf in E. inversion E; subst s' a; clear E.
+      assert (HI0 : forall s', agree_but [PTmp t] s s' -> I' [] (OGet 0) s') by (intros s' A; left; exact A).
+      assert (HE0 : forall s', agree_but [PTmp t] s s' -> B' ([] ++ [(OGet 0, REmptyWrite)]) s')
+        by (intros s' A; right; split; [reflexivity|exact A]).
+      assert (HK0 : forall s2, agree_but [PTmp t; p] s s2 -> fget s2 p = Some data -> fget s2 (PTmp t) = None ->
+                               I' [] (OGet 0) s2 /\ okrun fs dcmd dans dexec I' B' [] (OGet 0) s2 (Ret r)).
+      { intros s2 A G F. split; [right; repeat split; assumption|].
+        apply ok_ret. left. split; [reflexivity|repeat split; assumption]. }
+      apply (okrun_write_loop_faulty cfg Hc I' B' [] (OGet 0) p t (Ret r) data s Hp HI0 HE0 HK0 (length data) data [] 0).
+      - apply (agree_but_fset [PTmp t] s). left; reflexivity.
+      - apply fget_fset_same.
+      - reflexivity.
+      - reflexivity.
+      - exact Hd.
+      - lia. }
+    pose proof (okrun_asteps fs dcmd dans dexec I' B' [] (OGet 0) n s _ Hok) as H. fold st in H.
+    assert (HD : forall s', Done s' ->
+                 (forall q, q <> PTmp t -> q <> p -> fget s' q = fget s q) /\
+                 (fget s' p = fget s p \/ (fget s' p = Some data /\ fget s' (PTmp t) = None))).
+    { intros s' (A & G & F). split; [|right; split; assumption].
+      intros q Hq1 Hq2. apply A. intros [E|[E|[]]]; congruence. }
+    assert (HA : forall s', agree_but [PTmp t] s s' ->
+                 (forall q, q <> PTmp t -> q <> p -> fget s' q = fget s q) /\ fget s' p = fget s p).
+    { intros s' A. split; [intros q Hq1 Hq2|]; apply A; intros [E|[]]; congruence. }
+    destruct (snd st) as [x|c k].
+    - cbn [app] in H. destruct H as [[E Hdn]|[E A]]; inversion E; subst x.
+      + destruct (HD _ Hdn) as [H1 H2]. split; [exact H1|]. split; [exact H2|].
+        left. destruct Hdn as (_ & G & F). auto.
+      + destruct (HA _ A) as [H1 H2]. split; [exact H1|]. split; [left; exact H2|]. right. auto.
+    - destruct H as [A|Hdn].
+      + destruct (HA _ A) as [H1 H2]. split; [exact H1|]. split; [left; exact H2|exact Logic.I].
+      + destruct (HD _ Hdn) as [H1 H2]. split; [exact H1|]. split; [exact H2|exact Logic.I].
   Qed.
 
   (* ---- abort with unwinding = kill *)
